@@ -16,6 +16,9 @@
 #include <ksi/net_async.h>
 #include <ksi/net_tcp.h>
 #include <ksi/net_ha.h>
+#include <ksi/publicationsfile.h>
+#include <ksi/policy.h>
+#include <ksi/verification.h>
 #include <ksi/impl/net_async_impl.h>
 #include <sys/socket.h>
 #include <sys/ioctl.h>
@@ -236,6 +239,32 @@ int main(void) {
 			printf("R hmac rc=0x%x", rc);
 			if (rc == KSI_OK) { const unsigned char *imp; size_t il; KSI_DataHash_getImprint(h, &imp, &il); printf(" imprint="); hx_print(imp, il); }
 			printf("\n"); KSI_DataHash_free(h); KSI_CTX_free(c2); free(k); free(d); free(ks);
+		} else if (!strcmp(tok[0], "VERIFY")) {
+			/* VERIFY <policy> <sigHex> <userPubTime:imprintHex|-> <pubfileHex|-> <extendingAllowed 0|1> [<docHex|->]   (blocking context from BNEW; the extender is endpoint 1) */
+			size_t sl, pl = 0; unsigned char *sb = hx_dec(tok[2], &sl), *pb = NULL; KSI_Signature *sig = NULL; KSI_PublicationsFile *pf = NULL; KSI_PublicationData *up = NULL;
+			KSI_PolicyVerificationResult *result = NULL; KSI_VerificationContext vc; KSI_DataHash *doc = NULL; int rc, prc; unsigned char *before = NULL, *after = NULL; size_t bl = 0, al = 0;
+			const KSI_Policy *pol = !strcmp(tok[1], "KEY") ? KSI_VERIFICATION_POLICY_KEY_BASED : !strcmp(tok[1], "CAL") ? KSI_VERIFICATION_POLICY_CALENDAR_BASED :
+				!strcmp(tok[1], "PUBFILE") ? KSI_VERIFICATION_POLICY_PUBLICATIONS_FILE_BASED : !strcmp(tok[1], "USERPUB") ? KSI_VERIFICATION_POLICY_USER_PUBLICATION_BASED :
+				!strcmp(tok[1], "GENERAL") ? KSI_VERIFICATION_POLICY_GENERAL : KSI_VERIFICATION_POLICY_INTERNAL;
+			prc = KSI_Signature_parseWithPolicy(ctx, sb, sl, KSI_VERIFICATION_POLICY_EMPTY, NULL, &sig); free(sb);
+			if (prc == KSI_OK && strcmp(tok[4], "-")) { pb = hx_dec(tok[4], &pl); prc = KSI_PublicationsFile_parse(ctx, pb, pl, &pf); free(pb); if (prc != KSI_OK) prc |= 0x10000; }
+			if (prc == KSI_OK && strcmp(tok[3], "-")) { char *c2 = strchr(tok[3], ':'); size_t il; unsigned char *ib; KSI_Integer *t = NULL; KSI_DataHash *h = NULL; *c2++ = 0; ib = hx_dec(c2, &il);
+				KSI_PublicationData_new(ctx, &up); KSI_Integer_new(ctx, strtoull(tok[3], NULL, 10), &t); prc = KSI_DataHash_fromImprint(ctx, ib, il, &h); free(ib);
+				KSI_PublicationData_setTime(up, t); if (prc == KSI_OK) KSI_PublicationData_setImprint(up, h); else prc |= 0x20000; }
+			if (prc == KSI_OK && n > 6 && strcmp(tok[6], "-")) { size_t dl; unsigned char *db = hx_dec(tok[6], &dl); prc = KSI_DataHash_fromImprint(ctx, db, dl, &doc); free(db); }
+			if (prc != KSI_OK) printf("R verify parse=0x%x\n", prc);
+			else {
+				KSI_Signature_serialize(sig, &before, &bl);
+				KSI_VerificationContext_init(&vc, ctx);
+				vc.signature = sig; vc.userPublication = up; vc.userPublicationsFile = pf; vc.extendingAllowed = atoi(tok[5]); vc.documentHash = doc;
+				rc = KSI_SignatureVerifier_verify(pol, &vc, &result);
+				KSI_Signature_serialize(sig, &after, &al);
+				printf("R verify rc=0x%x", rc);
+				if (result != NULL) printf(" res=%d code=%s", result->finalResult.resultCode, KSI_VerificationErrorCode_toString(result->finalResult.errorCode)); else printf(" res=- code=-");
+				printf(" src=%s\n", (al == bl && before && after && memcmp(before, after, al) == 0) ? "same" : "diff");
+				KSI_VerificationContext_clean(&vc);
+			}
+			KSI_free(before); KSI_free(after); KSI_PolicyVerificationResult_free(result); KSI_DataHash_free(doc); KSI_PublicationData_free(up); KSI_PublicationsFile_free(pf); KSI_Signature_free(sig);
 		} else if (!strcmp(tok[0], "CONF")) {
 			/* CONF aggr|ext : blocking configuration request */
 			KSI_Config *cfg = NULL; int rc = !strcmp(tok[1], "aggr") ? KSI_receiveAggregatorConfig(ctx, &cfg) : KSI_receiveExtenderConfig(ctx, &cfg);
